@@ -47,7 +47,33 @@ def unroll_check(ctx, o):
                            {"matches": o.get("impl_all")}, {"matches_of_unrolled": o2.get("impl_all")})
 
 
+def same_group_twice(g):
+    """the same timed group written twice in a row (in the YAML file the second is an alias of the first when the document
+    is written with anchors): both occurrences carry their own repetition"""
+    a, b = g.r.sample(["push", "pop", "mov", "add", "nop"], 2)
+    n = g.pick([2, 2, 3])
+    grp = g.pick([{"$or": [a, b], "times": n}, {"$and": [a, b], "times": n}, {a: ["%r"], "times": n}, {"$not": ["ret"], "times": n}])
+    doc = {"pattern": ["ret", grp, copy.deepcopy(grp), "ret"]}
+    per = 2 if "$and" in grp else 1
+    total = g.pick([2 * n * per, 2 * n * per, (2 * n - 1) * per, (n + 1) * per])
+    body = [g.pick([a, b]) if "$and" not in grp else [a, b][i % 2] for i in range(total)]
+    if a in grp:
+        body = [a] * total
+    insts = [("6000", "ret", [])] + [("%x" % (0x6001 + 2 * i), m, ["%rax"]) for i, m in enumerate(body)] + [("6100", "ret", [])]
+    return doc, insts, "same-timed-group-twice"
+
+
 def run(ctx, factor):
+    rep = ctx.report
+    for _ in range(ctx.budget(30, 600) * factor):
+        doc, insts, tag = same_group_twice(ctx.g)
+        o = patdiff.observe(ctx, doc, insts, modes=("bool", "all", "first"))
+        usable = patdiff.correspondence(ctx, o)
+        if usable:
+            patdiff.spec_verdict(ctx, o)
+        rep.case(patdiff.case_of(o), usable, tags=[tag])
+        if rep.has_new() and factor > 1:
+            return
     ctx.report.rule = ("random rules over items and $and/$or/$not/$and_any_order groups (instruction and operand "
                        "level), each possibly carrying times n / {min,max} in both YAML spellings; listings realised "
                        "with r in [min,max] repetitions then perturbed by one edit (delete/insert/swap instruction, "
